@@ -70,6 +70,8 @@ type Scenario struct {
 	Spans map[string]SpanSpec `json:"spans,omitempty"`
 	// Deadlines: per context name, a deadline in ticks of virtual time after the start of the scenario.
 	Deadlines map[string]int `json:"deadlines,omitempty"`
+	// ShutCtx: the context Shutdown is called with: "" (background), "cancelled", "deadline" (one tick)
+	ShutCtx string `json:"shutctx,omitempty"`
 }
 
 // SpanSpec: kind "live" | "remote" (valid remote parent set by a propagator, not recording) | "unsampled" (valid, not
@@ -883,7 +885,19 @@ func runScenario(t *testing.T, sc *Scenario, tr int, out *bufio.Writer) {
 		r.log("ShutdownCall", nil)
 		go func() {
 			defer wg.Done()
-			_ = proc.Shutdown(context.Background())
+			// Shutdown's own context: the component must wait for accepted work whatever becomes of it
+			sctx := context.Background()
+			switch sc.ShutCtx {
+			case "cancelled":
+				c2, cf := context.WithCancel(sctx)
+				cf()
+				sctx = c2
+			case "deadline":
+				c2, cf := context.WithTimeout(sctx, tickDur)
+				defer cf()
+				sctx = c2
+			}
+			_ = proc.Shutdown(sctx)
 			r.mu.Lock()
 			r.shutRet = true
 			r.emit("ShutdownReturn", nil)
